@@ -344,6 +344,32 @@ VARIANTS += [
  dict(name='logging-helper-downgrades-result', expect='flagged(aggregator/results-read-only)',
       edits=_log_helper("\t\t\tif one.Result == revocationresult.ResultUnknown {\n\t\t\t\tone.Result = revocationresult.ResultNonRevokable\n\t\t\t}\n")),
  dict(name='result-overwritten-between-reads', file=V, expect='flagged(aggregator/results-read-only)',
-      find='\t\t\tif certResult.Result == revocationresult.ResultRevoked {\n\t\t\t\trevokedFound = true',
-      replace='\t\t\tcertResult.Result = revocationresult.ResultRevoked\n\t\t\tif certResult.Result == revocationresult.ResultRevoked {\n\t\t\t\trevokedFound = true'),
+      find='\t\tif certResult.Result == revocationresult.ResultOK || certResult.Result == revocationresult.ResultNonRevokable {\n\t\t\tnumOKResults++',
+      replace='\t\tif certResult.Result == revocationresult.ResultUnknown && i > 0 {\n\t\t\tcertResult.Result = revocationresult.ResultNonRevokable\n\t\t}\n\t\tif certResult.Result == revocationresult.ResultOK || certResult.Result == revocationresult.ResultNonRevokable {\n\t\t\tnumOKResults++'),
+]
+
+# shape R: range-over-func loop over the standard slice iterators (decided on the equivalent index loop)
+_IMPORT = ('\t"strings"\n\t"time"\n', '\t"strings"\n\tstdslices "slices"\n\t"time"\n')
+_LOOP_HEAD = 'for i := len(certResults) - 1; i >= 0; i-- {\n\t\tcert := certChain[i]\n\t\tcertResult := certResults[i]'
+def _iter_loop(fn='Backward', arg='certResults', extra=None):
+    e = [(V,) + _IMPORT, (V, _LOOP_HEAD, 'for i, certResult := range stdslices.%s(%s) {\n\t\tcert := certChain[i]' % (fn, arg))]
+    if extra:
+        e.append(extra)
+    return e
+_NONREV_WARN = '\t\tif i < len(certResults)-1 && certResult.Result == revocationresult.ResultNonRevokable {\n'
+
+VARIANTS += [
+ dict(name='benign-range-over-backward-iterator', expect='silent', edits=_iter_loop(),
+      why='slices.Backward(s) yields (i, s[i]) for i = len(s)-1..0: same loop as the index form when s is never reassigned'),
+ dict(name='benign-range-over-all-iterator', expect='silent', edits=_iter_loop(fn='All')),
+ dict(name='iterator-loop-breaks-on-ok', expect='flagged(aggregator/)',
+      edits=_iter_loop(extra=(V, _NONREV_WARN, '\t\tif certResult.Result == revocationresult.ResultOK && i == 0 {\n\t\t\tnumOKResults = len(certResults)\n\t\t\tbreak\n\t\t}\n' + _NONREV_WARN))),
+ dict(name='iterator-loop-any-ok-wins', expect='flagged(aggregator/decision)',
+      edits=_iter_loop(extra=(V, '\tif numOKResults == len(certResults) {\n\t\tfinalResult = revocationresult.ResultOK\n\t}',
+                              '\tif numOKResults > 0 && !revokedFound {\n\t\tfinalResult = revocationresult.ResultOK\n\t}'))),
+ dict(name='iterator-over-subslice-skips-leaf', expect='flagged(aggregator/)', edits=_iter_loop(arg='certResults[1:]')),
+ dict(name='iterator-slice-shrunk-in-body', expect='flagged(aggregator/)',
+      edits=_iter_loop(extra=(V, _NONREV_WARN, '\t\tif certResult.Result == revocationresult.ResultUnknown {\n\t\t\tcertResults = certResults[:numOKResults]\n\t\t}\n' + _NONREV_WARN))),
+ dict(name='iterator-loop-chain-index-off', expect='flagged(aggregator/same-index)',
+      edits=[(V,) + _IMPORT, (V, _LOOP_HEAD, 'for i, certResult := range stdslices.Backward(certResults) {\n\t\tcert := certChain[len(certChain)-1-i]')]),
 ]
